@@ -91,11 +91,11 @@ structure ApplyOK (m : MddMgr) (c : Conn) (u : Int) (v w : Option Int) (r : Int)
     denM m'.tbl r a = c.eval (denM m.tbl u a) (denO m.tbl v a) (denO m.tbl w a)
   exact : ∀ ext, RefExact m ext → RefExact m' ext
 
-theorem optNotMem_false {m : MddMgr} (h : MInv m) {v : Option Int} (hv : ¬ optNotMem m v = true) :
+theorem optNotMem_false {m : MddMgr} (h : MInv m) {v : Option Int} (hv : ¬ mddOptNotMem m v = true) :
     ∀ x, v = some x → m.tbl.Mem x := by
   intro x hx
   subst hx
-  simp only [optNotMem, Bool.not_eq_true', Bool.not_eq_false] at hv
+  simp only [mddOptNotMem, Bool.not_eq_true', Bool.not_eq_false] at hv
   have : m.tbl.mem x = true := by
     cases hm : m.tbl.mem x with
     | true => rfl
